@@ -273,7 +273,7 @@ func checkC09(w *World) {
 		if !ok || !ta.CommaOk {
 			return
 		}
-		n, ok := ta.AssertedType.(*types.Named)
+		n, ok := types.Unalias(ta.AssertedType).(*types.Named)
 		if !ok || n.Obj().Pkg() == nil || n.Obj().Pkg().Path() != "encoding/xml" {
 			return
 		}
@@ -358,7 +358,7 @@ func checkC09(w *World) {
 		for _, a := range guardAtoms(ret.Block()) {
 			if ex, ok := a.V.(*ssa.Extract); ok && ex.Index == 1 && !a.Pol {
 				if ta, ok := ex.Tuple.(*ssa.TypeAssert); ok {
-					if n, ok := ta.AssertedType.(*types.Named); ok && wantTok[n.Obj().Name()] != "" {
+					if n, ok := types.Unalias(ta.AssertedType).(*types.Named); ok && wantTok[n.Obj().Name()] != "" {
 						failed++
 					}
 				}
